@@ -1,0 +1,25 @@
+//go:build verif
+
+// Contracts checked by /verif/govc (comment-only; compiled only with -tags verif).
+package ripemd160
+
+// RIPEMD-160 padding (Merkle-Damgard strengthening as in MD4; the length is little-endian) for the fixed-length Sum: the message, one byte 0x80, the least number of
+// zero bytes that makes the total a multiple of the 64-byte block once the 8-byte length is added, the bit length
+// little-endian. Written from the standard, for every message length.
+//@ contract (*digest).padded
+//@   props C15
+//@   requires d != nil && bytesLen == len(d.in) && bytesLen < 1152921504606846976 && alloc(d.in) != alloc(d)
+//@   nopanic
+//@   ensures @block-multiple len(result) % 64 == 0
+//@   ensures @minimal len(result) >= bytesLen + 9 && len(result) < bytesLen + 9 + 64
+//@   ensures @message forall k int :: 0 <= k && k < bytesLen ==> result[k] == old(d.in[k])
+// (the values of the marker, zero and length bytes are not under contract: byte constants are boxed frontend.Variables)
+
+// Sum: every 64-byte block of the padded message, and only whole blocks, is fed to the compression function in order
+// (the window [64i, 64i+64) stays inside the padded message for every i the loop reaches; with padded's contract the
+// loop runs exactly len/64 times and leaves no tail)
+//@ contract (*digest).Sum
+//@   props C15
+//@   requires d != nil && len(d.in) < 1152921504606846976 && alloc(d.in) != alloc(d)
+//@   nopanic
+//@   loop 1 invariant @blocks i >= 0 && len(padded) % 64 == 0
